@@ -8,6 +8,12 @@
 //
 //	corpus     /verif/corpus/C06/*.css, every entry point (runs first)
 //	exhaust    all strings of length <= 2 (thorough: <= 3) over the 21-symbol alphabet
+//	trunc      EVERY PREFIX (cut after every code point) of the well-formed constructs of
+//	           verifharness/cssedge (one per scanner / look-ahead), bare, inside an enclosing
+//	           block / function / declaration, and through the fitting parser entry point
+//	exhaust-ctx for every hand scanner: heads that enter it ("u+", "1e", "url(", "'", "\\", "#")
+//	           followed by ALL short strings over the symbols that scanner distinguishes
+//	trunc-gen  every prefix of a sample of the generated soups / declaration lists
 //	short      random strings of length 3..7 over the same alphabet
 //	soup       grammar-directed token soups (every token class, escapes, nesting)
 //	decls/rules declaration-list and rule-list shaped texts
@@ -27,6 +33,7 @@ import (
 	"time"
 	"unicode/utf8"
 
+	"verifharness/cssedge"
 	"verifharness/vlib"
 
 	pr "github.com/benoitkugler/webrender/css/parser"
@@ -763,10 +770,43 @@ func main() {
 	}
 	rec("", maxLen)
 
+	// 2b. end of input after every code point of every construct (all deterministic)
+	for i, c := range cssedge.Constructs {
+		for k, p := range cssedge.Prefixes(c.Text, false) {
+			rn.run("trunc", eTok, 0, p)
+			switch c.Class {
+			case "value":
+				rn.run("trunc", eTokSkip, 0, p)
+				rn.run("trunc", []int{eBlocks, eDecls, eOneDecl}[(i+k)%3], (i+k)%4, "a:"+p)
+			case "decls":
+				rn.run("trunc", eDecls, (i+k)%4, p)
+				rn.run("trunc", eBlocks, 0, p)
+				rn.run("trunc", eOneDecl, (i+k)%2, p)
+			case "rules":
+				rn.run("trunc", eSheet, (i+k)%4, p)
+				rn.run("trunc", eBlocks, 0, p)
+			case "nth":
+				rn.run("trunc", eNth, 0, p)
+			}
+			// the same end of input one level down
+			rn.run("trunc", eTok, 0, cssedge.Wrappers[(i+k)%len(cssedge.Wrappers)]+p)
+		}
+	}
+
+	// 2c. exhaustive neighbourhoods of the hand scanners
+	extra := 0
+	if thorough {
+		extra = 1
+	}
+	for _, c := range cssedge.Contexts(extra) {
+		c.Enumerate(func(s string) { rn.run("exhaust-ctx", eTok, 0, s) })
+	}
+	fixed := w.N() // the deterministic part does not count against the budget of the random streams
+
 	tests := loadTestInputs()
 	// every test input once through a fitting entry point, plus all its prefixes for a sample
 	for i, s := range tests {
-		if w.N() >= *n*2/3 {
+		if w.N()-fixed >= *n*2/3 {
 			break
 		}
 		rn.run("tests", eTok, 0, s)
@@ -774,7 +814,7 @@ func main() {
 	}
 
 	// 3. generated streams
-	for w.N() < *n && hangs < 3 {
+	for w.N()-fixed < *n && hangs < 3 {
 		r := rng.Fork()
 		var src, kind string
 		hint := -1
@@ -824,5 +864,11 @@ func main() {
 		}
 		e, fl := pickEntry(r, hint)
 		rn.run(kind, e, fl, src)
+		// every prefix of a sample of the generated texts (same entry point)
+		if kind != "short" && !strings.HasPrefix(kind, "mut-") && utf8.RuneCountInString(src) <= 40 && r.Chance(1, 12) {
+			for _, p := range cssedge.Prefixes(src, false) {
+				rn.run("trunc-gen", e, fl, p)
+			}
+		}
 	}
 }
